@@ -402,7 +402,11 @@ func genShape(r *rng.R, d *doc) shape {
 	case 5:
 		return shape{kind: "polyline", pts: genPts(r, 2+r.Intn(4))}
 	case 6:
-		return shape{kind: "polygon", pts: genPts(r, 3+r.Intn(4))}
+		pts := genPts(r, 3+r.Intn(4))
+		if r.P(1, 4) {
+			pts = append(pts, pts[0]) // the first point repeated at the end: still one closed contour
+		}
+		return shape{kind: "polygon", pts: pts}
 	default:
 		return shape{kind: "path", d: genPathD(r)}
 	}
